@@ -166,8 +166,9 @@ def run_state(s):
     cmp("mtx", p["ap.aero_states.mtx"], A_ref, where=wh)
     cmp("rhs", p["ap.aero_states.rhs"], ref["rhs"][own], scale=s["v"], where=wh)
     circ = p["ap.circulations"]
-    cmp("circulations", circ, ref["G"][own], where=wh)
-    Fscale = max(np.abs(ref["Fflat"]).max(), 1e-300)
+    Gscale = max(np.abs(ref["G"]).max(), 1e-8 * s["v"])
+    cmp("circulations", circ, ref["G"][own], scale=Gscale, where=wh)
+    Fscale = max(np.abs(ref["Fflat"]).max(), gen.force_floor(s["rho"], s["v"], fulls))
     for k, (ih, srf) in enumerate(zip(idx_half, surfs)):
         F = p["ap.aero_states.s%d_sec_forces" % k].reshape(-1, 3)
         cmp("sec_forces", F, ref["Fflat"][ih], scale=Fscale, where=dict(wh, surf=k))
@@ -195,7 +196,7 @@ def run_state(s):
     Fkj = s["rho"] * hs[:, None] * np.cross(vel, bvec)
     Foas = np.concatenate([p["ap.aero_states.s%d_sec_forces" % k].reshape(-1, 3) for k in range(len(surfs))])
     cmp("kutta_joukowski", Foas, Fkj, scale=Fscale, where=wh)
-    cmp("horseshoe_circulations", hs, ref["Ghs"][own], scale=max(np.abs(ref["G"]).max(), 1e-300), where=wh)
+    cmp("horseshoe_circulations", hs, ref["Ghs"][own], scale=Gscale, where=wh)
     cmp("bound_vecs", bvec, ref["bv"][own], where=wh)
 
     return dict(
